@@ -136,6 +136,58 @@ def keyed_raw(p, case):
     return r, per, env.actions
 
 
+def keyed_grouped2(p, items, k2):
+    """A two-level keyed observable: group_by(k1, [group_by(k2, [map(value), *P])]); k2 of item n is k2[n].
+    Returns per (k1, k2) group outputs."""
+    head, tail = [], []
+    env = A.Env()
+    ops = [rs.ops.group_by(lambda i: i[0], [rs.ops.group_by(lambda i: i[2], [
+        drive.tap(head), rs.ops.map(lambda i: i[1]), *A.build_pipeline(p, env), drive.tap(tail)])])]
+    r = drive.store([(k, v, k2[n]) for n, (k, v) in enumerate(items)], ops)
+    keymap = {}
+    for kind, key, item, _t in head:
+        if kind == 'n':
+            keymap[key] = (item[0], item[2])
+    per = {}
+    for kind, key, item, _t in tail:
+        if kind == 'n':
+            per.setdefault(keymap.get(key, ('?', key)), []).append(item)
+    return r, per, env.actions
+
+
+def check_grouped2(case):
+    items, k2 = case['items'], case['k2']
+    order, g = [], {}
+    for n, (k, v) in enumerate(items):
+        kk = (k, k2[n])
+        if kk not in g:
+            g[kk] = []
+            order.append(kk)
+        g[kk].append(v)
+    plain, pa = plain_runs(case['p'], order, g)
+    r, per, ka = keyed_grouped2(case['p'], items, k2)
+    H.require_clean(r, 'two-level group_by', pipeline=case['p'], items=items, k2=k2)
+    for kk in order:
+        if not plain[kk].ok:
+            raise Violation('plain pipeline failed on a non-empty group although the model accepts the case', group=kk, pipeline=case['p'])
+        if not cmp.same_seq(per.get(kk, []), plain[kk].items, approx=False):
+            raise Violation('two-level group_by: group %r differs from the plain run of the same pipeline' % (kk,), group=kk,
+                            values=g[kk], plain=plain[kk].items, keyed=per.get(kk, []), pipeline=case['p'], items=items, k2=k2)
+    if [k for k in per if k not in g]:
+        raise Violation('two-level group_by: output for unknown keys', pipeline=case['p'], items=items, k2=k2)
+    adjacent = any(k2[n] == k2[n + 1] and items[n][0] != items[n + 1][0] for n in range(len(items) - 1))
+    labels = H.labels_of(case['p']) + (['same-inner-key-adjacent-across-outer'] if adjacent else [])
+    return {'nontrivial': len(order) >= 3 and A.pipeline_stateful(case['p']) and adjacent, 'labels': labels}
+
+
+@st.composite
+def keyed2_case(draw):
+    case = draw(keyed_case(OPTS))
+    n = len(case['items'])
+    case['k2'] = draw(st.lists(st.integers(0, 1), min_size=n, max_size=n))
+    return case
+
+
 def compare(case, plain, pactions, r, per, kactions, what):
     p, items = case['p'], case['items']
     order, g = groups_of(items)
@@ -266,6 +318,8 @@ def subs(tier):
     return [
         Sub('grouped', check_grouped, gen=lambda: keyed_case(OPTS), examples={'quick': 1800, 'thorough': 400000},
             doc='group_by(key,[map(value),*P]) under with_memory_store vs rx.from_(group).pipe(*P), per group, exact'),
+        Sub('grouped2', check_grouped2, gen=keyed2_case, examples={'quick': 700, 'thorough': 100000},
+            doc='two-level keys: group_by(k1,[group_by(k2,[map(value),*P])]) vs the plain pipeline per (k1,k2) group'),
         Sub('raw', check_raw, gen=lambda: keyed_case(OPTS, raw=True), examples={'quick': 900, 'thorough': 200000},
             doc='raw mux events with sparse / unordered key indices through cast_as_mux_observable + with_memory_store(P)'),
         Sub('multiplex', check_multiplex, gen=lambda: keyed_case(STATELESS), examples={'quick': 600, 'thorough': 60000},
